@@ -402,15 +402,15 @@ func vfC10IPOf(addr string) string {
 }
 
 type vfC10NetOutcome struct {
-	Admitted       bool           `json:"admitted"`         // the gated host had the connection (notification or ConnsToPeer)
-	DialErr        string         `json:"dial_err"`         // what the dialer's DialPeer returned
-	TransportDials int64          `json:"transport_dials"`  // outbound: Dial calls on the gated host's transports
-	RemoteAccepts  int            `json:"remote_accepts"`   // outbound: accept consultations at the remote
-	GateLog        []vfC10GateRec `json:"gate_log"`         // consultations of the gated host's gater, in order
-	RefusedAt      string         `json:"refused_at"`       // first refusing consultation
-	GaterRefusal   bool           `json:"gater_refusal"`    // the failure is attributable to the gater
-	Addr           string         `json:"addr"`             // address dialled
-	SeenIP         string         `json:"seen_ip"`          // remote IP as the gated host's gater saw it
+	Admitted       bool           `json:"admitted"`        // the gated host had the connection (notification or ConnsToPeer)
+	DialErr        string         `json:"dial_err"`        // what the dialer's DialPeer returned
+	TransportDials int64          `json:"transport_dials"` // outbound: Dial calls on the gated host's transports
+	RemoteAccepts  int            `json:"remote_accepts"`  // outbound: accept consultations at the remote
+	GateLog        []vfC10GateRec `json:"gate_log"`        // consultations of the gated host's gater, in order
+	RefusedAt      string         `json:"refused_at"`      // first refusing consultation
+	GaterRefusal   bool           `json:"gater_refusal"`   // the failure is attributable to the gater
+	Addr           string         `json:"addr"`            // address dialled
+	SeenIP         string         `json:"seen_ip"`         // remote IP as the gated host's gater saw it
 }
 
 // attempt performs one real connection attempt and leaves no connection behind.
@@ -530,6 +530,24 @@ func (n *vfC10Net) attempt(dir, peerName, tpt, form string) (vfC10NetOutcome, er
 		}
 	}
 	return out, nil
+}
+
+// quiesce drops whatever is left between the gated host and one remote
+func (n *vfC10Net) quiesce(peerName string) {
+	a, x := n.a, n.remote[peerName]
+	if x == nil {
+		return
+	}
+	a.sw.ClosePeer(x.id)
+	x.sw.ClosePeer(a.id)
+	_ = vfC10WaitFor("quiescence", func() bool {
+		return len(a.sw.ConnsToPeer(x.id)) == 0 && len(x.sw.ConnsToPeer(a.id)) == 0
+	})
+	time.Sleep(50 * time.Millisecond)
+	a.sw.Backoff().Clear(x.id)
+	x.sw.Backoff().Clear(a.id)
+	a.gate.take()
+	x.gate.take()
 }
 
 func vfC10NetSetup() (*vfC10Net, error) {
@@ -722,6 +740,13 @@ func TestVerifC10Net(t *testing.T) {
 						}
 					}
 					out, err := n.attempt(op.S("dir"), op.S("peer"), op.S("tpt"), form)
+					for try := 0; err != nil && try < 2; try++ {
+						// a network hiccup (time-out) is machinery: quiesce and try again before giving up
+						t.Logf("%s walk %d step %d: %v (retrying)", name, w.Walk, i, err)
+						stats["attempt_retries"]++
+						n.quiesce(op.S("peer"))
+						out, err = n.attempt(op.S("dir"), op.S("peer"), op.S("tpt"), form)
+					}
 					if err != nil {
 						t.Fatalf("%s walk %d step %d: %v", name, w.Walk, i, err)
 					}
